@@ -126,8 +126,14 @@ def blockedStr (s : State) : String :=
 
 /-! ### the interop server's reply path -/
 
+def replaceFirst {α : Type} (p : α → Bool) (x : α) : List α → List α
+  | [] => []
+  | y :: ys => if p y then x :: ys else y :: replaceFirst p x ys
+
+/-- the goroutines of caller `f.caller`'s `Server.Invoke` move on (caller numbers identify calls; the
+    first flight of that caller is the one `getFlight` finds) -/
 def setFlight (s : State) (f : Flight) : State :=
-  { s with flights := s.flights.map fun g => if g.caller == f.caller then f else g }
+  { s with flights := replaceFirst (·.caller == f.caller) f s.flights }
 def getFlight (s : State) (c : Nat) : Option Flight := s.flights.find? (·.caller == c)
 
 inductive SendRes where | ok | invalidId | responseSent | noStream
